@@ -9,13 +9,42 @@
  *   diff-escape         C04 presentation-name escaping both ways
  *   roundtrip-parsed    C03 on records obtained from the parser
  *   roundtrip-built     C03 on records built through the public setters
- *   roundtrip-big       C03 on built records of 16..64 KiB (option late=1: shared names first
- *                       appear beyond offset 16383)
+ *   roundtrip-big       C03 on built records of 16..64 KiB; shared names all appear early
+ *   roundtrip-big-late  same, but shared names first appear beyond offset 16383 (known finding)
  *   roundtrip-huge      C03 on built records above 64 KiB
  *   roundtrip-mkquery   C03 legacy builders ares_create_query / ares_mkquery
  */
 #include "ares_private.h"
 #include "vh.h"
+
+/* A defect that is easy to hit would otherwise print the same key thousands of times per chunk:
+ * report each key at most 3 times per chunk, count the rest. */
+static void codec_violation(const char *key, const char *fmt, ...)
+{
+  static struct {
+    uint64_t h;
+    unsigned n;
+  } seen[256];
+  uint64_t h = vh_fnv_str(VH_FNV_INIT, key);
+  size_t   i = (size_t)(h & 255), probes = 0;
+  char     buf[2048];
+  va_list  ap;
+  while (seen[i].n && seen[i].h != h && probes++ < 256) {
+    i = (i + 1) & 255;
+  }
+  seen[i].h = h;
+  if (++seen[i].n > 3) {
+    vh_case_viol++;
+    vh_count("violations_not_printed_repeats");
+    return;
+  }
+  va_start(ap, fmt);
+  vsnprintf(buf, sizeof(buf), fmt, ap);
+  va_end(ap);
+  vh_violation(key, "%s", buf);
+}
+#define vh_violation codec_violation
+
 #include "refdns.h"
 #include "gen.h"
 #include "cares_dump.h"
@@ -485,7 +514,7 @@ static void case_rt_parsed(vh_rng_t *rng)
   size_t             nrr = 0, elsewhere = 0, nopt;
   uint32_t           th;
 
-  o.hostsafe_pct     = 92; /* owner names must be host names for ares_dns_write to take them */
+  o.hostsafe_pct     = 97; /* owner names must be host names for ares_dns_write to take them */
   o.mutate           = vh_chance(rng, 1, 5);
   o.allow_rdlen0_raw = 0;
   o.max_rr           = 6;
@@ -595,7 +624,7 @@ static void case_rt_big(vh_rng_t *rng, uint64_t idx, int late, int huge)
       target += 24000;
     }
   }
-  rec = bld_big(rng, &info, target, late);
+  rec = bld_big(rng, &info, target, late, huge);
   if (rec == NULL) {
     vh_inconclusive("builder-header-refused");
     return;
@@ -629,15 +658,13 @@ int main(int argc, char **argv)
 {
   vh_args_t a;
   uint64_t  i;
-  int       late;
 
   vh_parse_args(&a, argc, argv);
   g_tag = vh_fnv_str(VH_FNV_INIT, a.profile);
-  late  = (int)vh_opt_int(&a, "late", 0);
   ares_library_init(ARES_LIB_INIT_ALL);
   for (i = a.first; i < a.first + a.count; i++) {
     vh_rng_t rng;
-    vh_rng_seed(&rng, vh_case_seed(a.seed, a.profile, i) ^ (late ? 0x6c617465ULL : 0));
+    vh_rng_seed(&rng, vh_case_seed(a.seed, a.profile, i));
     vh_case_begin(i);
     vh_count("cases");
     if (!strcmp(a.profile, "gen")) {
@@ -655,7 +682,9 @@ int main(int argc, char **argv)
     } else if (!strcmp(a.profile, "roundtrip-built")) {
       case_rt_built(&rng);
     } else if (!strcmp(a.profile, "roundtrip-big")) {
-      case_rt_big(&rng, i, late, 0);
+      case_rt_big(&rng, i, 0, 0);
+    } else if (!strcmp(a.profile, "roundtrip-big-late")) {
+      case_rt_big(&rng, i, 1, 0);
     } else if (!strcmp(a.profile, "roundtrip-huge")) {
       case_rt_big(&rng, i, 0, 1);
     } else if (!strcmp(a.profile, "roundtrip-mkquery")) {
